@@ -553,6 +553,30 @@ func c08(run *ev.Run, tier string) {
 	run.Set("registrations_checked", checked)
 	run.Set("matrix_cells", len(cells))
 	run.Set("matrix_exhaustive", true)
+	// a ghost whose file_info names an owner, a group or a time but no mode: the mode is
+	// the ghost default, as it is without any file_info
+	for gi, fi := range []*gen.FI{nil, {Owner: "daemon"}, {Group: "adm"}, {MTime: 1400000000}, {Owner: "daemon", Group: "adm", MTime: 1400000000}} {
+		s := &gen.Spec{Name: "ghostfi", Arch: "amd64", Version: "1.0.0", Maintainer: "G <g@example.com>", Description: "d", MTime: 1500000000}
+		s.RPM.BuildHost = "verif-host"
+		s.Contents = []*gen.Content{{Type: "ghost", Dst: "/var/log/ghostfi.log", FI: fi}, {Type: "ghost", Dst: "/var/lib/ghostfi/state", FI: fi}}
+		run.Case(fmt.Sprintf("ghost-with-file-info-without-mode|%d", gi), true)
+		res := buildYAML(s.YAML(), "rpm")
+		if res.Err != nil || res.Panic != "" {
+			run.Violate("C08/rpm/build-error", map[string]any{"case": "ghost with file_info without mode", "error": fmt.Sprint(res.Err, ev.Short(res.Panic, 200))})
+			continue
+		}
+		p := dec.Decode("rpm", res.Bytes, false)
+		for _, pth := range []string{"/var/log/ghostfi.log", "/var/lib/ghostfi/state"} {
+			e := p.Find(pth)
+			if e == nil || e.Flags != wantRpmFlags("ghost") || e.InCpio || e.Mode&0o7777 != 0o644 {
+				d := map[string]any{"path": pth, "file_info": fmt.Sprintf("%+v", fi), "found": e != nil}
+				if e != nil {
+					d["mode"], d["flags"], d["has_payload"] = oct(e.Mode&0o7777), e.Flags, e.InCpio
+				}
+				run.Violate("C08/rpm/ghost-mode/file-info-without-mode", d)
+			}
+		}
+	}
 	// the command line tool with the packager guessed from the target's extension
 	// marks the files the format's override block types as configuration
 	if bin := nfpmBin(run); bin != "" {
